@@ -69,6 +69,7 @@ func main() {
 	runForward(f, res, drv)
 	runE2ECases(f, res)
 	runWrappers(f, res)
+	runWrapChild(f, res, drv)
 	runRegistry(f, res, drv)
 	runReentrant(f, res, drv)
 	runConc(f, res, drv)
